@@ -617,6 +617,8 @@ def generate(prop: str, run_seed: int, tier: str = "quick") -> dict:
            "garbage": rng.choice(["rand", "randn", 3.25]) if "garbage" in enabled else "empty"}
     ops = []
     n = rng.randint(4, 10) if tier == "quick" else rng.randint(6, 16)
+    if rng.random() < 0.04:
+        n = rng.randint(20, 32)  # swarm: now and then a long history
     for _ in range(n):
         r = rng.random()
         if r < 0.35:
